@@ -310,3 +310,36 @@ let rec show_vm = function
   | VmBuilderV (bits, refs) -> "b:" ^ str_of_bits bits ^ "/" ^ String.concat "" (List.map cell_text refs)
   | VmTupleV l -> "t[ " ^ String.concat "" (List.map (fun v -> show_vm v ^ " ") l) ^ "]"
   | VmContV k -> "k " ^ show_cont k
+
+(* ---- TL values (C14): tokens  i:<hex> | T | F | b:<hex> | s:<hex> | x:<hex> | n | { type field value ... } | [ v ... ] *)
+let rec parse_tv (toks : String.t list) : tv * String.t list =
+  match toks with
+  | "T" :: r -> (TVBool true, r) | "F" :: r -> (TVBool false, r) | "n" :: r -> (TVNone, r)
+  | "{" :: ty :: r ->
+    let rec fields l acc = (match l with
+        | "}" :: r2 -> (List.rev acc, r2)
+        | k :: r2 -> let (v, r3) = parse_tv r2 in fields r3 ((coq_of_ocaml k, v) :: acc)
+        | [] -> failwith "tvobj") in
+    let (fs, r2) = fields r [] in (TVObj (coq_of_ocaml ty, fs), r2)
+  | "[" :: r ->
+    let rec items l acc = (match l with
+        | "]" :: r2 -> (List.rev acc, r2)
+        | _ -> let (v, r3) = parse_tv l in items r3 (v :: acc)) in
+    let (vs, r2) = items r [] in (TVVec vs, r2)
+  | t :: r ->
+    (match colon t with
+     | ["i"; h] -> (TVInt (z_of_hex h), r)
+     | ["b"; h] -> (TVBytes (bytes_of_hex h), r)
+     | ["s"; h] -> (TVStr (bytes_of_hex h), r)
+     | ["x"; h] -> (TVHex (bytes_of_hex h), r)
+     | _ -> failwith ("tv " ^ t))
+  | [] -> failwith "tv"
+let rec show_tv (v : tv) : String.t =
+  match v with
+  | TVInt z -> "i:" ^ hex_of_z z | TVBool b -> if b then "T" else "F"
+  | TVBytes l -> "b:" ^ hex_of_bytes l | TVStr l -> "s:" ^ hex_of_bytes l | TVHex l -> "x:" ^ hex_of_bytes l
+  | TVNone -> "n"
+  | TVObj (ty, fs) ->
+    "{ " ^ (let t = ocaml_of_coq ty in if t = "" then "-" else t) ^ " " ^
+    String.concat "" (List.map (fun (k, x) -> ocaml_of_coq k ^ " " ^ show_tv x ^ " ") fs) ^ "}"
+  | TVVec l -> "[ " ^ String.concat "" (List.map (fun x -> show_tv x ^ " ") l) ^ "]"
